@@ -160,6 +160,8 @@ def corpus(tier, seed):
     for i in inputs:
         if rng.random() < 0.1:
             i["awkward"] = rng.randrange(10**6)
+        if i["kind"] in ("model", "sbt") and rng.random() < 0.5:
+            i["dict_order"] = rng.randrange(10**6)      # every parameter dictionary (outer and inner) written in its own key order
     return inputs
 
 
@@ -185,6 +187,16 @@ def call_work(inp):
     nm = lambda c: names.get(c, c)      # noqa
     inv = lambda c: {v: k for k, v in names.items()}.get(c, c)   # noqa
     fs = inp.get("fscale", 1)
+
+    order_rng = random.Random(inp["dict_order"]) if "dict_order" in inp else None
+
+    def reorder(d):
+        """the same dictionary written in another key order (dictionaries are looked up by key: the order must not matter)"""
+        if order_rng is None:
+            return d
+        ks = list(d)
+        order_rng.shuffle(ks)
+        return {k: (reorder(d[k]) if isinstance(d[k], dict) else d[k]) for k in ks}
 
     def mk(sup):
         return PreferenceInterval({nm(c): (s * fs if fs != 1 else s) for c, s in sup.items()})
@@ -232,6 +244,7 @@ def call_work(inp):
                           pref_intervals_by_bloc={b: {s: mk(sup[b][s]) for s in blocs} for b in blocs},
                           bloc_voter_prop={b: 1 / len(blocs) for b in blocs},
                           cohesion_parameters={b: {s: float(coh[b][s]) for s in blocs} for b in blocs})
+                kw = {k: reorder(v) for k, v in kw.items()}
                 if inp["model"] == "PL":
                     g = bg.name_PlackettLuce(**kw)
                 elif inp["model"] == "BT":
@@ -274,6 +287,7 @@ def call_work(inp):
                           pref_intervals_by_bloc={b: {s: mk(sup[b][s]) for s in blocs} for b in blocs},
                           bloc_voter_prop={b: 1 / len(blocs) for b in blocs},
                           cohesion_parameters={b: {s: float(coh[b][s]) for s in blocs} for b in blocs})
+                kw = {k: reorder(v) for k, v in kw.items()}
                 g = bg.slate_BradleyTerry(**kw)
                 for b in blocs:
                     pdf = g.ballot_type_pdf[b]
